@@ -127,8 +127,7 @@ impl<R: One + PartialEq> Polynomial<R> {
 impl<R: AddAssign + Zero + MulAssign + Clone> Polynomial<R> {
     pub fn of(&self, x: &R) -> R {
         let mut sum = R::zero();
-        let deg = self.deg();
-        for i in (0..deg + 1).rev() {
+        for i in (0..self.dat.len()).rev() {
             sum *= x.clone();
             sum += self.coef_at(i);
         }
